@@ -45,11 +45,81 @@ def run(ck: Check) -> None:
     e3(ck)
     e4(ck)
     e5(ck)
+    e6(ck)
+    ck.floor("E6", 5)
     ck.floor("E1", 8)
     ck.floor("E2", 5)
     ck.floor("E3", 9)
     ck.floor("E4", 3)
     ck.floor("E5", 2)
+
+
+# ------------------------------------------------------------------------------------------ E6
+# Handlers that catch RuntimeError (the error type of every limit and solver failure) without raising again. Each was read:
+# the failure is turned into the answer that claims nothing ("unknown", "keep the candidate", "try the next name").
+# key: function -> (calls that may stand in the guarded block, what the handler does with the failure)
+ABSORBING_HANDLERS = {
+    "compute_attractor_candidates": ({"pint_reachability"}, "pint could not decide: the candidate is kept"),
+    "expand_source_blocks": ({"node_attractor_seeds", "node_attractor_candidates", "root", "len"},
+                             "a failed candidate search means 'not known to be clean' (E4)"),
+    "_has_no_attractor_candidates": ({"node_attractor_candidates", "len"}, "a failed candidate search means 'unknown' (E4)"),
+    "sanitize_network_names": ({"set_variable_name"}, "a name clash: the next candidate name is tried"),
+}
+
+
+def _covers_runtime_error(h: ast.ExceptHandler) -> bool:
+    if h.type is None:
+        return True
+    ts = h.type.elts if isinstance(h.type, ast.Tuple) else [h.type]
+    return any(text(t).split(".")[-1] in ("RuntimeError", "Exception", "BaseException") for t in ts)
+
+
+def _always_raises(body: list[ast.stmt]) -> bool:
+    if not body:
+        return False
+    last = body[-1]
+    if isinstance(last, ast.Raise):
+        return True
+    if isinstance(last, ast.If) and last.orelse:
+        return _always_raises(last.body) and _always_raises(last.orelse)
+    return False
+
+
+def e6(ck: Check) -> None:
+    """A limit or solver failure reaches the caller: no handler absorbs a RuntimeError, except the reviewed ones that
+    turn it into an answer which claims nothing. An absorbed failure lets the operation report success with nodes
+    unexpanded, lists truncated or attractors missing."""
+    prog = ck.prog
+    for fm in prog.models():
+        f = fm.f
+        for t in own_walk(f.node):
+            if not isinstance(t, ast.Try):
+                continue
+            for h in t.handlers:
+                if not _covers_runtime_error(h):
+                    continue
+                calls = {callee_name(c) for st in t.body for c in ast.walk(st) if isinstance(c, ast.Call)} - {None, "print", "cast"}
+                if _always_raises(h.body):
+                    ck.ob("E6", fm, h, True, "the failure is raised again on every path of the handler",
+                          key=f"handler in {f.qualname} re-raises")
+                    continue
+                # re-raise unless a fallback was asked for: the fallback computes the same answer another way
+                if f.qualname == "SuccessionDiagram.node_attractor_seeds" and any(isinstance(y, ast.Raise) for st in h.body for y in ast.walk(st)):
+                    pcs = [fm.pc(fm.cfgn(y)) for st in h.body for y in ast.walk(st) if isinstance(y, ast.Raise)]
+                    fb = any(isinstance(c, ast.Call) and callee_name(c) == "symbolic_attractor_fallback" for st in h.body for c in ast.walk(st))
+                    ok = fb and any(logic.atoms(p_) for p_ in pcs)
+                    ck.ob("E6", fm, h, ok, "raised again unless the symbolic fallback was requested, which recomputes the answer" if ok else
+                          "the candidate-limit failure of the seed computation is absorbed without the symbolic fallback",
+                          key=f"handler in {f.qualname}")
+                    continue
+                allowed = ABSORBING_HANDLERS.get(f.name)
+                if allowed is not None and calls <= allowed[0]:
+                    ck.ob("E6", fm, h, True, f"reviewed: {allowed[1]}", key=f"handler in {f.qualname}")
+                    continue
+                ck.ob("E6", fm, h, False,
+                      f"a RuntimeError from `{', '.join(sorted(c for c in calls if c))[:80]}` is absorbed here: limit and solver "
+                      f"failures must reach the caller (the operation would go on and report success with a node left unexpanded, "
+                      f"a truncated list or missing attractors)", key=f"handler in {f.qualname} around {sorted(calls)[:3]}")
 
 
 # ------------------------------------------------------------------------------------------ solver layer
@@ -491,6 +561,25 @@ def e5(ck: Check) -> None:
     trace(loop.iter, hn)
     if not sources:
         raise AnalysisError("anchor vanished: enumeration feeding the ensure loop")
+    # a node that is marked expanded without the solver having been asked is a fixed point: its space fixes every variable
+    after = set()
+    for c, at in sources:
+        after |= fm.cfg.reach_avoiding(fm.cfgn(c), [])
+    node_p = [p_ for p_ in f.params() if p_ != "self"][0]
+    for e_ in fm.field_events():
+        if e_.kind == "store" and e_.field == "expanded" and is_true(e_.value) and e_.cfgn.id not in after:
+            nv = "self.network.variable_count()"
+            sk = f"FIELD<self|{node_p}|space>"
+            pc = fm.pc(e_.cfgn, numeric={nv})
+            want = logic.Eq(f"len({sk})", nv)
+            try:
+                ok = logic.implies(pc, want)
+            except logic.TooBig:
+                ok = False
+            ck.ob("E5", fm, e_.stmt, ok, "marked expanded without enumeration only when every variable is fixed" if ok else
+                  f"the node is marked expanded without asking the solver under `{logic.show(pc)[:100]}`, which does not say that "
+                  f"its space fixes every variable: a node with free variables (free inputs included) has successors that are "
+                  f"never created", key="expanded without enumeration")
     for c, at in sources:
         lim = next((k.value for k in c.keywords if k.arg == "solution_limit"), None)
         if lim is None:
@@ -498,6 +587,16 @@ def e5(ck: Check) -> None:
             continue
         ltxt = text(lim)
         lcanon = text(fm.deref(lim, fm.cfgn(c)))     # the limit may be held in a local
+        # the list must be known complete at the ensure loop and wherever the node is marked expanded after the enumeration
+        marks = [e_.cfgn for e_ in fm.field_events() if e_.kind == "store" and e_.field == "expanded" and is_true(e_.value)
+                 and e_.cfgn.id in fm.cfg.reach_avoiding(at if hasattr(at, "id") else fm.cfgn(c), [])
+                 and hn.id not in {d_.id for d_ in fm.cfg.dominators(e_.cfgn)}]
+        for point in [hn] + marks:
+            _e5_at(ck, fm, f, c, point, point is hn, chain, ltxt, lcanon)
+
+
+def _e5_at(ck, fm, f, c, hn, is_loop, chain, ltxt, lcanon) -> None:
+    if True:
         facts = []
         for d in fm.cfg.dominators(hn):
             if d.kind != "branch" or d.test is None:
@@ -534,7 +633,9 @@ def e5(ck: Check) -> None:
         goal = logic.Lt("len(R)", "L")
         ok = logic.implies(logic.And(*facts, contract), goal)
         cex = None if ok else logic.counterexample(logic.Or(logic.Not(logic.And(*facts, contract)), goal))
-        ck.ob("E5", fm, f.stmt_of(c), ok,
-              f"len(result) < {ltxt} at the ensure loop (from {len(facts)} dominating test(s) + solver contract)" if ok
-              else f"a result list truncated at solution_limit={ltxt} can reach the ensure loop and the node is then "
-                   f"marked expanded with missing successors (ordering that is not excluded: {cex})")
+        where = "the ensure loop" if is_loop else f"the `expanded = True` of line {hn.lineno}"
+        ck.ob("E5", fm, f.stmt_of(c) if is_loop else hn.ast, ok,
+              f"len(result) < {ltxt} at {where} (from {len(facts)} dominating test(s) + solver contract)" if ok
+              else f"a result list truncated at solution_limit={ltxt} can reach {where} and the node is then "
+                   f"marked expanded with missing successors (ordering that is not excluded: {cex})",
+              key=None if is_loop else f"complete at the mark under {text(hn.ast)[:30]} #{sorted(x.id for x in fm.cfg.dominators(hn) if x.kind == 'branch')[-1:] }")
